@@ -11,3 +11,16 @@ names = sorted(set(names) | {f"{m.name}.{k}" for m in p.modules.values() for k i
 names = sorted(set(names) | {f"{c.qualname}.{k}" for c in p.classes.values() for k in list(c.attrs) + list(c.annotations)})
 (Path(__file__).resolve().parent.parent / 'emsverif' / 'reference_functions.json').write_text(json.dumps(names, indent=0) + '\n')
 print(len(names), 'functions recorded')
+
+# parameters and callers of every function of the reviewed tree: a private helper that is renamed or moved is recognised against these
+# (emsverif/renames.py)
+import ast as _ast
+from emsverif.renames import callers_by_simple_name, param_count
+callers = callers_by_simple_name(p)
+details = {}
+for q, f in p.functions.items():
+    simple = q.rsplit('.', 1)[-1]
+    details[q] = {'params': param_count(f.node), 'callers': sorted(callers.get(simple, set()) - {q}), 'nested': f.parent is not None}
+details['__imports__'] = {m.name: dict(m.imports) for m in p.modules.values()}
+(Path(__file__).resolve().parent.parent / 'emsverif' / 'reference_details.json').write_text(json.dumps(details, indent=0, sort_keys=True) + '\n')
+print(len(details), 'function details recorded')
